@@ -18,13 +18,21 @@
 //!                     the last didOpen/didChange if there was one since the
 //!                     previous background run
 //!   will*Files     -> a response
-//! `quiesce` waits for exactly those events (the publish must come *after* the
+//!   didClose/didSave -> nothing (the unchanged server ignores them).  A server
+//!                     that handles didClose has to re-read the project: a probe
+//!                     at start-up (`probe_close_starts_bg`) finds out whether
+//!                     didClose starts a background run, and `did_close` then
+//!                     waits for its end like for a rename.
+//! Every step waits for exactly those events (the publish must come *after* the
 //! progress end), then sends two `workspace/symbol` requests one after the
 //! other and awaits both responses: the analysis thread answers them only
 //! after everything queued before, and the second response cannot overtake a
 //! notification that was queued before the first (the output multiplexer
-//! alternates between its two sources).  Anything not arriving within the
-//! watchdog makes the whole check inconclusive, never a violation.
+//! alternates between its two sources).  A background run that this model did
+//! not predict (`window/workDoneProgress/create` out of turn) is recorded in
+//! `unexpected_bg`; the check then declines to judge the history.  Anything not
+//! arriving within the watchdog makes the whole check inconclusive, never a
+//! violation.
 
 use serde_json::{Value, json};
 use std::collections::BTreeMap;
@@ -188,14 +196,12 @@ impl Ls {
 
     fn send(&mut self, v: &Value) -> Result<(), LsErr> {
         let body = serde_json::to_vec(v).unwrap();
-        let head = format!("Content-Length: {}\r\n\r\n", body.len());
+        let mut msg = format!("Content-Length: {}\r\n\r\n", body.len()).into_bytes();
+        msg.extend_from_slice(&body);
         let Some(si) = self.stdin.as_mut() else {
             return Err(LsErr::Exited("stdin closed".into()));
         };
-        let r = si
-            .write_all(head.as_bytes())
-            .and_then(|_| si.write_all(&body))
-            .and_then(|_| si.flush());
+        let r = si.write_all(&msg).and_then(|_| si.flush());
         r.map_err(|e| LsErr::Exited(format!("write to server: {e}; stderr: {}", self.stderr_text())))
     }
 
@@ -447,11 +453,6 @@ impl Ls {
         let id = self.request("workspace/willDeleteFiles", json!({"files": [{"uri": uri}]}))?;
         self.wait_response(id, "the willDeleteFiles response")?;
         self.barrier()
-    }
-
-    /// `latest_change` of the server as the client models it.
-    pub fn latest_model(&self) -> Option<(String, i64)> {
-        self.latest.clone()
     }
 }
 
